@@ -863,7 +863,31 @@ func runR017(c *core.Ctx) {
 		ok := false
 		ast.Inspect(fd.Body, func(n ast.Node) bool {
 			if call, ok2 := n.(*ast.CallExpr); ok2 && len(call.Args) == 1 && (core.Callee(inf, call) == rb || isBytesDecoder(c, core.Callee(inf, call))) {
-				if inner, ok3 := core.Unparen(call.Args[0]).(*ast.CallExpr); ok3 {
+				arg := core.Unparen(call.Args[0])
+				// the string read first and handed on (`s, err := j.ReadString(); …; return readJsonBytes(s)`)
+				if v, isVar := core.ObjOf(inf, arg).(*types.Var); isVar && !v.IsField() {
+					var defs []ast.Expr
+					ast.Inspect(fd.Body, func(y ast.Node) bool {
+						if as, okA := y.(*ast.AssignStmt); okA {
+							for i, l := range as.Lhs {
+								if core.ObjOf(inf, l) == v {
+									if len(as.Rhs) == 1 && i == 0 {
+										defs = append(defs, as.Rhs[0])
+									} else if len(as.Rhs) == len(as.Lhs) {
+										defs = append(defs, as.Rhs[i])
+									} else {
+										defs = append(defs, nil)
+									}
+								}
+							}
+						}
+						return true
+					})
+					if len(defs) == 1 && defs[0] != nil {
+						arg = core.Unparen(defs[0])
+					}
+				}
+				if inner, ok3 := arg.(*ast.CallExpr); ok3 {
 					if cf := core.Callee(inf, inner); cf != nil && core.NameOf(cf) == "ReadString" {
 						ok = true
 					}
@@ -1128,6 +1152,121 @@ func runR032(c *core.Ctx) {
 			}
 			return true
 		})
+		// the classification split from the emission (`special, ok = "NaN", true` under the test; `String(special)` later):
+		// the reserved string is chosen under the right test and the local that holds it is what is written
+		holders := map[types.Object]map[string]bool{}
+		ast.Inspect(fd.Body, func(n ast.Node) bool {
+			as, ok := n.(*ast.AssignStmt)
+			if !ok || len(as.Lhs) != len(as.Rhs) {
+				return true
+			}
+			for i, l := range as.Lhs {
+				cv := core.ConstOf(cinf, as.Rhs[i])
+				if cv == nil || cv.Kind() != constant.String {
+					continue
+				}
+				str := constant.StringVal(cv)
+				if str != "Infinity" && str != "-Infinity" && str != "NaN" {
+					continue
+				}
+				guardKind := ""
+				core.GuardedByFact(cinf, par, as, func(f core.Fact) bool {
+					if k := specialFloatFact(cinf, f); k != "" {
+						guardKind = k
+						return true
+					}
+					return false
+				}, nil)
+				if o := core.ObjOf(cinf, l); o != nil && guardKind == str {
+					if holders[o] == nil {
+						holders[o] = map[string]bool{}
+					}
+					holders[o][str] = true
+				}
+			}
+			return true
+		})
+		if len(holders) > 0 {
+			ast.Inspect(fd.Body, func(n ast.Node) bool {
+				call, ok := n.(*ast.CallExpr)
+				if !ok || len(call.Args) != 1 {
+					return true
+				}
+				cf := core.Callee(cinf, call)
+				if cf == nil {
+					return true
+				}
+				for str := range holders[core.ObjOf(cinf, call.Args[0])] {
+					if _, dup := got[str]; !dup {
+						got[str] = core.NameOf(cf) + ":" + str
+					}
+				}
+				return true
+			})
+		}
+		// the classification in a function of its own (`if special, ok := nonFinite(v); ok { String(special) }`): each
+		// reserved string is returned under the right test, and the first result is what is written
+		ast.Inspect(fd.Body, func(n ast.Node) bool {
+			call, ok := n.(*ast.CallExpr)
+			if !ok || len(call.Args) != 1 {
+				return true
+			}
+			cf := core.Callee(cinf, call)
+			v, isVar := core.ObjOf(cinf, call.Args[0]).(*types.Var)
+			if cf == nil || !isVar || v.IsField() {
+				return true
+			}
+			var src *ast.CallExpr
+			ast.Inspect(fd.Body, func(y ast.Node) bool {
+				if as, okA := y.(*ast.AssignStmt); okA && len(as.Rhs) == 1 && len(as.Lhs) >= 1 && core.ObjOf(cinf, as.Lhs[0]) == v {
+					if sc, okC := core.Unparen(as.Rhs[0]).(*ast.CallExpr); okC {
+						src = sc
+					}
+				}
+				return true
+			})
+			if src == nil {
+				return true
+			}
+			g := core.Callee(cinf, src)
+			if g == nil {
+				return true
+			}
+			gd := c.M.Decl(g.Origin())
+			gp := c.M.PkgOf(g)
+			if gd == nil || gd.Body == nil || gp == nil {
+				return true
+			}
+			ginf := gp.TypesInfo
+			gpar := core.Parents(gd)
+			for _, r := range core.ReturnsIn(gd.Body) {
+				if len(r.Results) == 0 {
+					continue
+				}
+				cv := core.ConstOf(ginf, r.Results[0])
+				if cv == nil || cv.Kind() != constant.String {
+					continue
+				}
+				str := constant.StringVal(cv)
+				if str != "Infinity" && str != "-Infinity" && str != "NaN" {
+					continue
+				}
+				guardKind := ""
+				core.GuardedByFact(ginf, gpar, r, func(f core.Fact) bool {
+					if k := specialFloatFact(ginf, f); k != "" {
+						guardKind = k
+						return true
+					}
+					return false
+				}, nil)
+				if guardKind == str {
+					if _, dup := got[str]; !dup {
+						got[str] = core.NameOf(cf) + ":" + str
+					}
+				}
+			}
+			return true
+		})
 		wantFn := "String"
 		if recv == "ror2Writer" {
 			wantFn = "RawString"
@@ -1235,7 +1374,7 @@ func isBytesDecoder(c *core.Ctx, f *types.Func) bool {
 		return false
 	}
 	sig := f.Type().(*types.Signature)
-	return sig.Recv() == nil && sig.Params().Len() == 2 && sig.Results().Len() == 2
+	return sig.Recv() == nil && (sig.Params().Len() == 2 || sig.Params().Len() == 1) && sig.Results().Len() == 2
 }
 
 // specialFloatFact classifies a condition known to hold as the test for one of the special float values:
